@@ -525,6 +525,12 @@ func c16Replay(r *vcore.Run, sub string, raw json.RawMessage) {
 	}
 	st := &c16State{sc: sc}
 	res := vsched.Run(sc.Schedule, false, st.body)
+	if res.Failed == 3 {
+		fmt.Println("replay: the recorded schedule does not apply to this tree (" + res.FailMsg + "); exploring every schedule of the scenario instead")
+		sc.Schedule = nil
+		c16RunScenario(r, sc, -1, 5*time.Minute)
+		return
+	}
 	for _, p := range st.verdict(res) {
 		fp, msg, _ := strings.Cut(p, "|")
 		kind := "resolve"
